@@ -127,6 +127,12 @@ def run_numeric(item):
             rows.append(dict(id=i + 1, a=r.randint(-3, 3), b=''.join(r.choice('ab') for _ in range(L))))
         keys = [(Fraction(x['a']), tuple(ord(ch) for ch in x['b'])) for x in rows]
         key = r.choice(['{a}{b}', ['a', 'b']])
+    elif mode == 'multi_spec':
+        # a format-string key that mixes a field WITH a format spec and a plain numeric field: the plain one still compares numerically
+        for i in range(n):
+            rows.append(dict(id=i + 1, a=r.choice([r.randint(-1000, 1000), r.randint(-9, 9), r.uniform(-50, 50)]), b=''.join(r.choice('ab') for _ in range(2))))
+        keys = [(tuple(ord(ch) for ch in x['b']), exact(x['a'])) for x in rows]
+        key = r.choice(['{b:>4}{a}', '{b!s}{a}', '{b:<3}|{a}'])
     elif mode == 'big':
         for i in range(n):
             rows.append(dict(id=i + 1, a=r.randint(-50, 50) if i % 3 else r.uniform(-50, 50)))
@@ -206,7 +212,7 @@ def run():
     rep.sample(dict(text_case=dict(keys=[''.join(CHARS[x] for x in k) for k in items[5]['case']['tbl']], ideal=items[5]['case']['ideal'], variant=items[5]['variant'])))
     probe_known(rep)
     nitems = []
-    for mode, cnt in (('numeric', 220), ('text', 80), ('multi', 60)):
+    for mode, cnt in (('numeric', 220), ('text', 80), ('multi', 60), ('multi_spec', 60)):
         for _ in range(cnt if t == 'quick' else cnt * 15):
             nitems.append(dict(seed=r.randrange(10 ** 9), mode=mode))
     if t == 'thorough':
